@@ -252,7 +252,7 @@ def finish(plan: Plan, results, tier, seed, t_start, checker_cmd):
         if st == DISCHARGED:
             by_backend[r["backend"]] = by_backend.get(r["backend"], 0) + 1
         sub = max(1, int((r.get("extra") or {}).get("sub_obligations") or 1))
-        if ob.bounded:
+        if ob.bounded or (r.get("extra") or {}).get("bounded"):
             n_bounded += 1
         elif not ob.finding:
             n_proof += sub
